@@ -1,3 +1,6 @@
+#[path = "../../h_zvariant/src/bridge.rs"]
+#[allow(dead_code, unexpected_cfgs)]
+mod bridge;
 mod generated;
 mod genval;
 mod ifcheck;
@@ -11,6 +14,11 @@ fn c09_case(src: &mut Src, obs: &mut Obs) -> CaseResult {
     let types = generated::types();
     let i = src.below(types.len());
     let e = &types[i];
+    if let Some(vc) = e.value_check {
+        if src.chance(80) {
+            return vc(e, src, obs);
+        }
+    }
     (e.check)(e, src, obs)
 }
 
